@@ -46,6 +46,9 @@ def _premul(c):
 def execute(dev):
     from vmc.drive import inproc
 
+    if dev.get("kind") == "cli":
+        return exec_cli(dev)
+
     dev = {k: v for k, v in dev.items() if k != "_"}
     a = lattice.full(FULL, dev)
     glyphs, over = scenes.mk(a)
@@ -119,13 +122,36 @@ def execute(dev):
     return out
 
 
+def exec_cli(case):
+    """CLI slice: 'both builds succeed' is a statement about the command"""
+    from vmc.drive import cli, conformance
+    import shutil
+
+    w = cli.mkscratch("c06")
+    try:
+        files = cli.write_sources(w / "src", conformance.base_sources())
+        over = {"color_format": case["fmt"], "reuse_tolerance": case["tol"], "output_file": "Font.ttf"}
+        r = cli.nanoemoji(w, cli.flags_for(over) + [str(f) for f in files])
+        if r.returncode != 0 or not (w / "build" / "Font.ttf").exists():
+            return [bad("C06.cli-build-succeeds", f"nanoemoji --reuse_tolerance={case['tol']} --color_format={case['fmt']} exits {r.returncode}: {(r.stderr or '')[-300:]}",
+                        sig=f"cli:tol={case['tol']}")]
+        return [ok("C06.cli-build-succeeds", f"cli:{case['fmt']}:{case['tol']}")]
+    finally:
+        shutil.rmtree(w, ignore_errors=True)
+
+
 def _outline_glyphs(font):
     return len(font.getGlyphOrder())
 
 
 def run(report, tier, only=None):
     k = int(only) if only and only.isdigit() else K[tier]
-    devs, results = lattice.explore(report, DIMS, k, execute, relevant=scenes.relevant, timeout=300)
+    devs, results = ([], []) if only == "cli" else lattice.explore(report, DIMS, k, execute, relevant=scenes.relevant, timeout=300)
+    if only is None or only == "cli":
+        from vmc.core import listing
+
+        cases = [{"kind": "cli", "fmt": f, "tol": t} for f in DIMS["fmt"] for t in (0.1, -1, 0.5)]
+        listing.run(report, cases, execute, timeout=600, jobs=5)
     fired = {}
     for r in results:
         if r and "fired" in r[0]:
